@@ -1367,7 +1367,8 @@ def alloc_proof():
         name, init, inv, length = ob
         out = os.path.join(d, "ap-%s-%s" % (init, inv))
         q = subprocess.run(["apalache-mc", "check", "--out-dir=" + out, "--cinit=CInit", "--init=" + init, "--inv=" + inv, "--length=%d" % length,
-                            "SeidAllocInd.tla"], cwd=d, stdout=subprocess.PIPE, stderr=subprocess.STDOUT, text=True, timeout=900)
+                            "SeidAllocInd.tla"], cwd=d, env=dict(os.environ, TMPDIR=vlib.sub("jtmp")),   # the launcher makes its SANY directory with mktemp -t
+                           stdout=subprocess.PIPE, stderr=subprocess.STDOUT, text=True, timeout=900)
         return name, q.returncode, q.stdout[-1500:]
     def proof():
         q = subprocess.run(["tlapm", "--threads", "4", "--cache-dir", os.path.join(d, "tlacache"), "SeidAllocProof.tla"], cwd=d,
